@@ -304,6 +304,24 @@ def gen_e2e(rng, n, kinds=("line", "trafo"), repeat=False):
                           "discon": rng.random() < 0.5, "n": 2, "battery": {"p": "1", "q": "1", "e": "2", "smin": "1/10", "smax": "1", "eta": "1"}}
         ps = net.build(dict(spec, exact=False))
         case["faults"] = rand_faults(rng, ps, n_inc, kinds)
+        if repeat and len(cases) % 4 == 1:
+            # targeted: a pure storage bus (battery or EV park on a bus without load profile of its own) that charges for some
+            # increments and is then cut off from the feed / loses its transformer
+            if rng.random() < 0.5:
+                spec["mg"] = {"host": [0, rng.randrange(len(spec["feeders"][0]["parent"]))], "mode": rng.choice(["full", "limited", "survival"]),
+                              "discon": rng.random() < 0.5, "n": 2, "storage_only": True,
+                              "battery": {"p": "1/2", "q": "1/2", "e": "2", "smin": "1/10", "smax": "1", "eta": "1"}}
+                ps = net.build(dict(spec, exact=False))
+                k0 = rng.randint(4, 6)
+                case["faults"] = {str(k0): [rng.choice([["line", "ML0", "3"], ["trafo", "M0", "3"], ["line", "F0L0", "3"]])]}
+            else:
+                fd = spec["feeders"][0]
+                i0 = rng.randrange(len(fd["parent"]))
+                fd["noload"] = [i0]
+                fd["ev"] = {str(i0): {"hours": list(range(24)), "table": [str(rng.choice([2, 3, 5])) for _ in range(24)], "v2g": rng.random() < 0.5}}
+                ps = net.build(dict(spec, exact=False))
+                case["faults"] = {str(rng.randint(2, 4)): [["line", "F0L0", "3"]], str(rng.randint(7, 8)): [["trafo", f"F0B{i0}", "2"]]}
+            case["n_inc"] = max(case["n_inc"], 12)
         if repeated:
             # targeted: two or three Monte Carlo iterations on the same object (the simulator's run_iteration, reset in between),
             # with a fault inside the microgrid so that the microgrid's own accumulators are used in every iteration
